@@ -745,6 +745,17 @@ func (ev *Env) call(x *ast.CallExpr) Val {
 			cs = append(cs, eq(sel(ev.cur.get(ev.fx, k), r), sel(ev.pre.get(ev.fx, k), r)))
 		}
 		return boolV("(forall ((" + r + " Int)) " + implies(and(hyp...), and(cs...)) + ")")
+	case "lockHeld":
+		// lockHeld(x, ".lockfield"): the lock at that field of object x is held (read or write)
+		v := arg(0)
+		lit, ok := x.Args[1].(*ast.BasicLit)
+		if !ok || v.T == nil {
+			specFail("lockHeld(obj, \".field\")")
+		}
+		fld, _ := strconv.Unquote(lit.Value)
+		root := rootKey(derefType(v.T))
+		id := "(lockid " + v.L[0] + " " + fmt.Sprint(hashStr(root+fld)) + ")"
+		return boolV(not(eq(sel(ev.cur.get(ev.fx, "G|lock"), id), "0")))
 	case "visited":
 		// visited(n): the set of keys already produced by the n-th map range statement of this function
 		if ev.frame == nil {
